@@ -113,3 +113,14 @@ def run(ctx):
     fw = ctx.fn('ProtocolState::on_current_operation_fully_written')
     bw = [m for m in prims.mutations(fw) if m.kind == 'assign' and show(m.path).endswith('.ping_extension_base_timepoint')]
     ctx.ob(len(bw) == 1 and show(bw[0].rv) == 'Option::Some{0: now}', 'the write time is recorded when the operation is fully written', 'extend|recorded', loc=fw.loc())
+
+    # (added after seed C14-2) the PINGRESP deadline is always part of the reported next service time
+    nxc = ctx.fn('ProtocolState::get_next_service_timepoint_connected')
+    okd, _, badr = prims.consulted_on_every_return(nxc, 'ping_timeout_timepoint')
+    ctx.ob(okd, 'detection at the deadline: the connected next-service time takes the PINGRESP deadline into account on every path, also while a socket write is outstanding%s' % ('' if okd else ' — return at %s ignores it' % nxc.loc(badr)),
+           'pingresp-deadline|next-service', loc=nxc.loc(), rule='R-C14-3')
+    ska = ctx.fn('ProtocolState::service_keep_alive')
+    sc = ctx.fn('ProtocolState::service_connected')
+    kc = sc.calls('ProtocolState::service_keep_alive')
+    others = [c for c in sc.calls() if c.nfn.startswith('protocol::ProtocolState::') and not c.nfn.endswith('service_keep_alive')]
+    ctx.ob(len(kc) == 1 and all(sc.dominates(kc[0].bb, c.bb) for c in others), 'the keep-alive service (deadline test) runs first in every Connected service call, before queue work and regardless of pending writes', 'pingresp-deadline|service-first', loc=sc.loc(), rule='R-C14-3')
